@@ -630,7 +630,7 @@ func worker(name string, seed int64, n, from int64) {
 		}
 		hist[in.Path+":"+in.Kind]++
 		if in.Hex != "" || in.PayLen > 0 { // non-trivial: not the empty input
-			distinct[fmt.Sprintf("%s|%s|%d|%d|%d", in.Path, in.Hex, in.PayLen, in.Shape, in.BufLen)] = true
+			distinct[fmt.Sprintf("%s|%s|%d|%d|%d|%d", in.Path, in.Hex, in.PayLen, in.Shape, in.BufLen, in.HS)] = true
 		}
 		fmt.Fprintf(out, "I %d %s\n", k, mustJSON(in))
 		out.Flush()
